@@ -176,11 +176,18 @@ def random_histories(ids, W, count, depth, seed, log, jobs=8):
             "jstates": j["states"], "sample": [explore.sample_of(e) for e in events[5:7]]}
 
 
+def _guard(fn):
+    try:
+        return fn()
+    except Exception as e:          # re-raised in the main thread
+        return e
+
+
 def model_states(ids, W, L, level, log):
     prio = graph.default_prio(len(ids))
     r = tlc.run_model("MC_TaskGraph", {"N": len(ids), "W": W, "L": L, "LEVEL": level, "EMIT": True},
                       {"IdOf": ids, "Prio": prio}, "mctg", invariants=MC_INVS, properties=MC_PROPS,
-                      view="View", workers=16)
+                      view="View", workers=6)
     states = set()
     for t in tlc.tuples(r["out"], "STATE"):
         d = json.loads(t[1])
@@ -204,15 +211,13 @@ def run(tier, seed, log):
 
     # --- 1. the intended design, model-checked -------------------------------------------------
     ids_a = [1, 2, 1]
-    mc, mstates = model_states(ids_a, 2, 2, 3, log)
-    if not mc["ok"] or not mc["stats"]:
-        bad = tlc.violated(mc["out"])
-        raise tlc.TlcError("MC_TaskGraph: the intended design violates %s\n%s" % (bad, mc["out"][-3000:]))
-    cov["mc_states"] = mc["stats"]["distinct"]
-    cov["mc_transitions"] = mc["stats"]["generated"]
-    log("MC_TaskGraph ids=%s W=2: %d states, %d transitions, all invariants hold (%.0fs)"
-        % (ids_a, mc["stats"]["distinct"], mc["stats"]["generated"], mc["wall"]))
-
+    # the design model check and the repository's tests run beside the exploration of the real objects
+    import threading
+    side = {}
+    th_mc = threading.Thread(target=lambda: side.update(mc=_guard(lambda: model_states(ids_a, 2, 2, 3, log))))
+    th_rt = threading.Thread(target=lambda: side.update(rt=_guard(lambda: repo_test_traces(log))))
+    th_mc.start()
+    th_rt.start()
     # --- 2. the real objects, explored with the same alphabet ----------------------------------
     configs = [dict(name="A", ids=ids_a, W=2, L=2, level=3, prune=True, light=(tier == "quick"))]
     ids_b = [1, 2, 3]
@@ -245,6 +250,18 @@ def run(tier, seed, log):
         if cfg["name"] == "A":
             impl_a = res
 
+    th_mc.join()
+    if isinstance(side["mc"], Exception):
+        raise side["mc"]
+    mc, mstates = side["mc"]
+    if not mc["ok"] or not mc["stats"]:
+        bad = tlc.violated(mc["out"])
+        raise tlc.TlcError("MC_TaskGraph: the intended design violates %s\n%s" % (bad, mc["out"][-3000:]))
+    cov["mc_states"] = mc["stats"]["distinct"]
+    cov["mc_transitions"] = mc["stats"]["generated"]
+    log("MC_TaskGraph ids=%s W=2: %d states, %d transitions, all invariants hold (%.0fs)"
+        % (ids_a, mc["stats"]["distinct"], mc["stats"]["generated"], mc["wall"]))
+
     # --- 3. reachable sets: design vs implementation -------------------------------------------
     if impl_a is not None and impl_a.complete:
         istates = impl_core_states(impl_a)
@@ -270,6 +287,19 @@ def run(tier, seed, log):
             fails.extend(r["fails"])
             log("random histories ids=%s W=%d: %d calls judged, %d failing histories" % (ids, W, r["events"],
                                                                                        len(r["fails"])))
+    # --- 5. the repository's own tests, recorded and judged call by call ----------------------
+    th_rt.join()
+    if isinstance(side["rt"], Exception):
+        raise side["rt"]
+    rt = side["rt"]
+    cov["repo_tests"] = {"tests": rt["tests"], "calls": rt["events"]}
+    cov["events"] += rt["events"]
+    cov["judge_states"] += rt["jstates"]
+    for f in rt["fails"]:
+        # the call site identifies a known finding: a constructor that fails after applying part of its
+        # relation arguments (parent=, children=, successors=, predecessors=)
+        f["tags"] = ["ctor-partial"] if f["call"] == "Task()" and f["clause"] == "C15.unchanged" else []
+        fails.append(f)
     for f in fails:
         f["property"] = f["clause"].split(".")[0]
         f["engine"] = "graph"
@@ -279,6 +309,10 @@ def run(tier, seed, log):
 
 def replay(case, log):
     """Re-execute a stored history on the current tree and judge its last step."""
+    if "test" in case:
+        rt = repo_test_traces(log)
+        return sorted({f["clause"] for f in rt["fails"] if f["test"] == case["test"] and
+                       (case.get("tags") or "ctor-partial" not in ("ctor-partial" if f["call"] == "Task()" else ""))})
     u = case["universe"]
     U = graph.Universe(u["ids"], u["W"], prio=u["prio"])
     hist = case["history"]
@@ -332,6 +366,7 @@ def evidence(prop, res):
                          "transitions": cov["mc_transitions"]},
         "reachable_sets": cov.get("reach"),
         "drift_events": cov["drift"],
+        "repository_tests_as_traces": cov.get("repo_tests"),
         "clauses": CLAUSES[prop],
         "checker_cmd": "tlc (TaskGraphTrace.tla judges every recorded call; MC_TaskGraph.tla model-checks the design)",
     }
@@ -341,3 +376,67 @@ def evidence(prop, res):
         "DRIFT (accept/reject decision differs from the intended design) is reported, never a violation",
     ]
     return {"level": "model_checking", "coverage": coverage, "assumptions": assumptions}
+
+
+# ---------------------------------------------------------------------------------------------
+# the repository's own tests as validated traces
+# ---------------------------------------------------------------------------------------------
+def repo_test_traces(log):
+    """Run /repo's test suite under the recording plugin and have TLC judge every recorded call."""
+    import os
+    import subprocess
+    import tempfile
+    out = tempfile.mktemp(prefix="tests-", suffix=".jsonl", dir=common.WORK)
+    env = dict(os.environ, PJPLAN_TRACE_OUT=out, PYTHONPATH=common.VERIF + os.pathsep + common.SRC,
+               PYTHONDONTWRITEBYTECODE="1")
+    p = subprocess.run(["/venv/bin/python", "-m", "pytest", "-q", "-p", "no:cacheprovider", "-p", "harness.pytest_trace",
+                        "tests"], cwd=common.REPO, env=env, stdout=subprocess.PIPE, stderr=subprocess.STDOUT,
+                       text=True, timeout=900)
+    tests = []
+    try:
+        with open(out) as fh:
+            for line in fh:
+                tests.append(json.loads(line))
+    finally:
+        try:
+            os.unlink(out)
+        except OSError:
+            pass
+    fails, nev, jstates, judged_tests = [], 0, 0, 0
+    jobs = []
+    for d in tests:
+        n, w = d["n"], d["w"]
+        if n == 0 or not d["events"]:
+            continue
+        idmap = {}
+        ids = [idmap.setdefault(x, len(idmap) + 1) for x in d["ids"]]
+        evs = []
+        for i, e in enumerate(d["events"]):
+            evs.append({"id": i, "call": e["call"], "out": e["out"], "pre": _pad(e["pre"], n, w), "post": _pad(e["post"], n, w)})
+        jobs.append((d["test"], {"N": n, "W": w, "IdOf": ids, "Prio": [0] * n}, evs))
+
+    def one(job):
+        name, C, evs = job
+        return name, evs, tlc.judge_batches("TestTrace", C, [evs], "tt", jobs=1)
+
+    from concurrent.futures import ThreadPoolExecutor
+    with ThreadPoolExecutor(max_workers=3) as pool:
+        for name, evs, j in pool.map(one, jobs):
+            judged_tests += 1
+            nev += len(evs)
+            jstates += j["states"]
+            for t in j["fails_full"]:
+                fails.append({"clause": t[2], "kind": "repo-test " + str(t[3]), "test": name, "event": t[1],
+                              "call": t[3], "text": "%s, call #%d %s" % (name, t[1], t[3])})
+    log("repository tests as traces: %d tests, %d public mutator calls judged, %d failing clauses (pytest: %s)"
+        % (judged_tests, nev, len(fails), p.stdout.strip().splitlines()[-1] if p.stdout.strip() else "?"))
+    return {"tests": judged_tests, "events": nev, "jstates": jstates, "fails": fails}
+
+
+def _pad(g, n, w):
+    """a snapshot taken when only g['n'] tasks / g['w'] WBSs existed, in the test's final universe"""
+    k, v = g["n"], g["w"]
+    return {"par": g["par"] + [0] * (n - k),
+            "ch": g["ch"][:k] + [[] for _ in range(n - k)] + g["ch"][k:] + [[] for _ in range(w - v)],
+            "pre": g["pre"] + [[] for _ in range(n - k)], "suc": g["suc"] + [[] for _ in range(n - k)],
+            "own": g["own"] + [0] * (n - k)}
